@@ -385,7 +385,7 @@ func init() {
 		assumptions: []string{
 			"concurrent conflicting activations on different nodes are outside the property (it quantifies over quiescent histories)",
 			"the in-memory Remoter carries every inter-node message through the real ProtoSerializer; a sample over real TCP remotes is part of C17/C20 rather than of this check",
-			"nodes that left never rejoin (a fresh node joins instead); every cluster request timeout is set to 60 s so that a slow machine cannot turn into a wrong answer",
+			"a member that left may come back under its old id and address as a fresh process (its predecessor is cut off from the network for good); every cluster request timeout is set to 60 s so that a slow machine cannot turn into a wrong answer",
 		},
 		modes: func(tier string, seed int64) []modeSpec {
 			n := 640
@@ -443,10 +443,16 @@ func c19Run(c *caseCtx) (res caseResult) {
 	allKinds := []string{"ka", "kb", "kc"}
 	var nodes []*c19Node
 	nextNode := 0
+	var gone []*c19Node
+	var reuse *c19Node // if set, the next node comes back under this one's id and address (a restart of that member)
 	newNode := func() *c19Node {
 		nextNode++
 		nd := &c19Node{id: fmt.Sprintf("n%d", nextNode), addr: fmt.Sprintf("mem-%d:1", nextNode), alive: true,
 			prod: &prodCounter{runs: map[string]int{}, stopped: map[string]int{}, started: map[string]int{}}}
+		if reuse != nil {
+			nd.id, nd.addr = reuse.id, reuse.addr
+			reuse = nil
+		}
 		nd.rem = net.remoteFor(nd.addr)
 		e, err := actor.NewEngine(actor.NewEngineConfig().WithRemote(nd.rem))
 		if err != nil {
@@ -524,6 +530,7 @@ func c19Run(c *caseCtx) (res caseResult) {
 	}
 	// model
 	active := map[string]*actor.PID{} // "kind/id" -> pid
+	var retired []string              // ids that were active once and are free again
 	nStart := 1 + r.Intn(5)
 	for i := 0; i < nStart; i++ {
 		if newNode() == nil {
@@ -604,6 +611,15 @@ func c19Run(c *caseCtx) (res caseResult) {
 					break
 				}
 			}
+			if id == "" && len(retired) > 0 && r.Intn(3) == 0 {
+				// an id that was active before (deactivated, or lost with its host) is used again
+				k := retired[r.Intn(len(retired))]
+				parts := strings.SplitN(k, "/", 2)
+				if _, isActive := active[k]; !isActive {
+					kind, id = parts[0], parts[1]
+					interesting++
+				}
+			}
 			if id == "" {
 				nextID++
 				id = fmt.Sprintf("a%d", nextID)
@@ -628,10 +644,10 @@ func c19Run(c *caseCtx) (res caseResult) {
 				return ms[sel%len(ms)]
 			})
 			key := kind + "/" + id
-			before := map[string]int{}
+			before := map[*c19Node]int{}
 			for _, n := range nodes {
 				n.prod.mu.Lock()
-				before[n.id] = n.prod.runs[kind]
+				before[n] = n.prod.runs[kind]
 				n.prod.mu.Unlock()
 			}
 			pid := from.cl.Activate(kind, cfg)
@@ -645,7 +661,7 @@ func c19Run(c *caseCtx) (res caseResult) {
 			ranOn := ""
 			for _, n := range nodes {
 				n.prod.mu.Lock()
-				d := n.prod.runs[kind] - before[n.id]
+				d := n.prod.runs[kind] - before[n]
 				n.prod.mu.Unlock()
 				ran += d
 				if d > 0 {
@@ -703,12 +719,23 @@ func c19Run(c *caseCtx) (res caseResult) {
 			key := keys[r.Intn(len(keys))]
 			pid := active[key]
 			from := al[r.Intn(len(al))]
+			stoppedBefore := 0
+			for _, n := range al {
+				if n.addr == pid.Address {
+					n.prod.mu.Lock()
+					stoppedBefore = n.prod.stopped[key]
+					n.prod.mu.Unlock()
+				}
+			}
 			from.cl.Deactivate(pid)
 			if !quiesce() {
 				res.inconclusive("no quiescence after deactivate")
 				return
 			}
 			delete(active, key)
+			if !strings.HasPrefix(key, "spawned/") {
+				retired = append(retired, key)
+			}
 			interesting++
 			what = fmt.Sprintf("deactivate %s from %s", key, from.id)
 			for _, n := range al {
@@ -718,7 +745,7 @@ func c19Run(c *caseCtx) (res caseResult) {
 			}
 			// the actor itself has been stopped
 			var host *c19Node
-			for _, n := range nodes {
+			for _, n := range al {
 				if n.addr == pid.Address {
 					host = n
 				}
@@ -731,8 +758,8 @@ func c19Run(c *caseCtx) (res caseResult) {
 				host.prod.mu.Lock()
 				st := host.prod.stopped[key]
 				host.prod.mu.Unlock()
-				if !strings.HasPrefix(key, "spawned/") && st != 1 {
-					res.violate("step %d: %s: the actor received Stopped %d times", step, what, st)
+				if !strings.HasPrefix(key, "spawned/") && st-stoppedBefore != 1 {
+					res.violate("step %d: %s: the actor received Stopped %d times", step, what, st-stoppedBefore)
 				}
 			}
 			shape = append(shape, 'D')
@@ -753,6 +780,15 @@ func c19Run(c *caseCtx) (res caseResult) {
 			if len(al) >= 5 {
 				continue
 			}
+			rejoin := ""
+			if len(gone) > 0 && r.Intn(2) == 0 {
+				// a member that left comes back: same id, same address, fresh process
+				k := r.Intn(len(gone))
+				reuse = gone[k]
+				gone = append(gone[:k], gone[k+1:]...)
+				rejoin = " (a member that had left comes back under its old id and address)"
+				interesting++
+			}
 			nd := newNode()
 			if nd == nil {
 				res.inconclusive("node setup failed")
@@ -763,7 +799,7 @@ func c19Run(c *caseCtx) (res caseResult) {
 				res.inconclusive("no quiescence after join")
 				return
 			}
-			what = fmt.Sprintf("join %s%v", nd.id, nd.kinds)
+			what = fmt.Sprintf("join %s%v%s", nd.id, nd.kinds, rejoin)
 			if len(active) > 0 {
 				interesting++
 			}
@@ -783,9 +819,13 @@ func c19Run(c *caseCtx) (res caseResult) {
 			for k, pid := range active {
 				if pid.Address == nd.addr {
 					delete(active, k)
+					if !strings.HasPrefix(k, "spawned/") {
+						retired = append(retired, k)
+					}
 					interesting++
 				}
 			}
+			gone = append(gone, nd)
 			what = fmt.Sprintf("leave %s", nd.id)
 			shape = append(shape, 'L')
 		}
